@@ -195,6 +195,18 @@ static void downmix_int_16bit(int16 *dest, int32 *src, int num, int amp, int off
 	}
 }
 
+#ifdef LIBXMP_VERIF
+/* Verification hook H4: exported pass-through to the static downmix functions. */
+void libxmp_verif_downmix(void *dest, int32 *src, int num, int amp, int offs, int bits)
+{
+	if (bits == 8) {
+		downmix_int_8bit((char *)dest, src, num, amp, offs);
+	} else {
+		downmix_int_16bit((int16 *)dest, src, num, amp, offs);
+	}
+}
+#endif
+
 static void anticlick(struct mixer_voice *vi)
 {
 	vi->flags |= ANTICLICK;
